@@ -21,3 +21,11 @@
 (assert (forall ((c Int) (a Int) (b Int)) (! (and (= (binkind (k_bin c a b)) c) (= (binlhs (k_bin c a b)) a) (= (binrhs (k_bin c a b)) b)) :pattern ((k_bin c a b)))))
 ; marker used to request instances of lemmas about integer sequences (a, off, n) at chosen terms
 (declare-fun seqmark ((Array Int Int) Int Int) Bool)
+; axes: normax(v, r) is the ONNX normalisation of a possibly negative axis v against rank r
+; (r = 0: identity). memb(d, off, n, r, x): x is one of the n normalised axes d[off..off+n).
+; (memb is uninterpreted; defining equation memb_def in lemmas.smt2)
+; nkept(d, off, n, r, i): how many positions x in [0, i) are NOT such an axis (uninterpreted;
+; defining equations nkept_base / nkept_step in lemmas.smt2).
+(define-fun normax ((v Int) (r Int)) Int (ite (< v 0) (+ v r) v))
+(declare-fun memb ((Array Int Int) Int Int Int Int) Bool)
+(declare-fun nkept ((Array Int Int) Int Int Int Int) Int)
